@@ -561,6 +561,8 @@ package vanguard
 
 //@ func (*responseWriter).WriteHeader
 //@   requires rwFull(w)
+//@   loop 1 invariant[C05] -1 <= rangeindex
+//@   loop 1 invariant[C05] forall j in [0, rangeindex+1): has(respMeta.pendingTrailerKeys, canon(trailerKeys[j]))
 //@   dispatch (io.Writer).Write: none
 //@   ensures rwFull(w) && w.headersWritten && w.op == old(w.op)
 //@   ensures old(w.headersWritten) ==> rwStep(w)
